@@ -27,6 +27,13 @@ TABLE = {
     "c01_const_const_row_drops_left.diff": ("contracts.c07", "_configure_decider", "operation = <"),
     "c07_arith_wires_swapped.diff": ("contracts.c07", "_configure_arithmetic", None),
     "c07_row_not_mirrored.diff": ("contracts.c07", "_configure_decider_multi_condition", None),
+    "c07_placer_arith_operands_swapped.diff": ("contracts.c07b", "_place_arithmetic", None),
+    "c07_placer_decider_copy_kept_for_inlined.diff": ("contracts.c07b", "_place_single_condition_decider", None),
+    "c07_placer_constant_never_input.diff": ("contracts.c07b", "_place_constant", None),
+    "c07_placer_decider_sink_missing.diff": ("contracts.c07b", "_place_single_condition_decider", None),
+    "c07_placer_multi_second_sink_missing.diff": ("contracts.c07b", "_place_multi_condition_decider", "rows (ref CMP ref), (ref CMP int)"),
+    "c07_placer_multi_connective_dropped.diff": ("contracts.c07b", "_place_multi_condition_decider", "rows (ref CMP ref), (ref CMP int)"),
+    "c07_placer_multi_inlined_as_signal.diff": ("contracts.c07b", "_place_multi_condition_decider", "rows (ref CMP ref), (ref CMP int)"),
     "c08_mark_occupied_row_only.diff": ("contracts.c08", "mark_occupied", None),
     "c14_zero_step_via_variable.diff": ("contracts.c14", "visit_ForStmt", "variable"),
     "c14_define_shadows_in_inner_scope.diff": ("contracts.c14", "define", None),
